@@ -5446,10 +5446,16 @@ class Parameterized(metaclass=ParameterizedMetaclass):
         # recreated and point to the new instance
         if _param__private.watchers:
             param_watchers = _param__private.watchers
+            # a watcher of several parameters sits in several lists and
+            # must stay one and the same object there
+            recreated = {}
             for p, attrs in param_watchers.items():
                 for attr, watchers in attrs.items():
                     new_watchers = []
                     for watcher in watchers:
+                        if id(watcher) in recreated:
+                            new_watchers.append(recreated[id(watcher)][1])
+                            continue
                         watcher_args = list(watcher)
                         if watcher.inst is not None:
                             watcher_args[0] = self
@@ -5458,7 +5464,9 @@ class Parameterized(metaclass=ParameterizedMetaclass):
                             watcher_args[2] = _m_caller(self, fn._watcher_name)
                         elif get_method_owner(fn) is watcher.inst:
                             watcher_args[2] = getattr(self, fn.__name__)
-                        new_watchers.append(Watcher(*watcher_args))
+                        new_watcher = Watcher(*watcher_args)
+                        recreated[id(watcher)] = (watcher, new_watcher)
+                        new_watchers.append(new_watcher)
                     param_watchers[p][attr] = new_watchers
 
         state.pop('param', None)
